@@ -16,6 +16,7 @@ FLOORS = {"C09/D1": 9, "C09/D3": 2, "C09/D4": 2, "C04/D6": 9}
 
 
 def run(ctx):
+    canon.resolve_names(ctx)
     canon.to_bytes_is_canonical(ctx, "C09/D1")
     canon.check_derivations(ctx, "C09/D1")
     # what to_writer emits is the canonicaliser's output: it must stay plain (valid) JSON, i.e. not be post-processed
